@@ -15,7 +15,7 @@ the retired_extents list; a scanned record loses iff the indexed one has a stric
 queues the scanned extent and the replace branch queues the existing extent. Not decided: equality of contents across
 nested recoveries; that repairs touch no live block (value-level).
 """
-DECIDED = ['a read-only recovery masks journaled extents in start order, so it reports what a read-write recovery reports (shared with C15.mask)', 'journal image and marker writes of a retirement transaction cover the same chunk (shared with C03.bracket)', 'journal position continuity: decoded (generation, slot) always restored; next = (generation + 1, other slot); advanced only after write + flush', "replay: markers before clear, clear on Ok edge", "post-scan retirement is journalled and fed from retired_extents",
+DECIDED = ['both retirement-marker writers stamp each chunk with the blocks remaining from it (shared with C10.marker/writers)', 'a read-only recovery masks journaled extents in start order, so it reports what a read-write recovery reports (shared with C15.mask)', 'journal image and marker writes of a retirement transaction cover the same chunk (shared with C03.bracket)', 'journal position continuity: decoded (generation, slot) always restored; next = (generation + 1, other slot); advanced only after write + flush', "replay: markers before clear, clear on Ok edge", "post-scan retirement is journalled and fed from retired_extents",
            "winner rule: strict `existing.timestamp > scanned.timestamp` loses; right extent queued on each branch",
            'a marker length is refused only for zero or beyond-device (coalesced chains of any length are accepted)',
            'recovery frees / queues an extent with the on-disk length of that same generation',
@@ -46,7 +46,14 @@ def check_ro_mask(ctx):
     C15.check_mask(ctx, "C04.ro-mask")
 
 
+def check_marker_writers(ctx):
+    """recovery trusts the block count of a retirement-marker head twice (it skips that many blocks unseen and re-retires that many): both marker writers, buffered and O_DIRECT, must stamp every chunk with the blocks remaining from that chunk on, never more, or a later recovery skips and then overwrites live records behind the retired extent (same rule as C10.marker/writers; added after C04-i, which passed the extent's total length in the O_DIRECT twin only)"""
+    from rules import C10
+    C10.check_marker_writers(ctx, "C04.marker-writers")
+
+
 def check(ctx):
+    check_marker_writers(ctx)
     check_ro_mask(ctx)
     check_bracket(ctx)
     check_marker_accept(ctx)
